@@ -3,15 +3,14 @@ package main
 import (
 	"bytes"
 	"encoding/json"
+	"errors"
 	"fmt"
-	"io/ioutil"
 	"net/url"
 	"os"
-	"os/exec"
 	"path/filepath"
 	"strconv"
 	"strings"
-	"syscall"
+	"time"
 
 	. "verifharness/hlib"
 
@@ -24,9 +23,11 @@ import (
 // C18: users and routes survive edits, reloads and crashes.
 // Implementation: the real global tables (auth.Reset/Save/Del/Get/All/Flush, route.…) on the real
 // JSON providers (auth.JSON / route.JSON configured with a file in a scratch directory; a
-// spying wrapper records what Flush hands to the provider), restarts = Reset from the file,
-// crashes = a child process (this binary re-executed) that kills itself with SIGKILL at a
-// verif crash point inside utils.EncodeJSONFile.
+// spying wrapper records what Flush hands to the provider and can make the provider fail),
+// restarts = Reset from the file, crashes = a child process (this binary re-executed) that
+// brings its tables into the parent's state and kills itself with SIGKILL at a verif crash
+// point inside utils.EncodeJSONFile.  (child.go: processes and watchdogs; env.go: the harness's
+// own file handling.)
 func main() {
 	if job := os.Getenv("VERIF_C18_CHILD"); job != "" {
 		childMain(job)
@@ -37,13 +38,14 @@ func main() {
 
 // ---------------------------------------------------------------- ops
 type op struct {
-	kind           byte // s d g a f r x
+	kind           byte // s d g a f r x  e E (flush while the provider / the file system fails)  k (flush that dies, then restart)
 	key            string
 	pw, push, pull string // users
 	admin, upd     bool
 	url            string // routes
 	ka             bool
 	disk           string // x
+	hook, part     string // k: crash point; bytes of the write in progress: - 0 1 h m a
 }
 
 func hx(s string) string { return Hx([]byte(s)) }
@@ -60,9 +62,18 @@ func (o op) token(users bool) string {
 		return fmt.Sprintf("%c,%s", o.kind, hx(o.key))
 	case 'x':
 		return "x," + o.disk
+	case 'k':
+		return "k," + o.hook + "," + o.part
 	default:
 		return string(o.kind)
 	}
+}
+
+func kindName(users bool) string {
+	if users {
+		return "users"
+	}
+	return "routes"
 }
 
 func line(users bool, ops []op) string {
@@ -70,12 +81,10 @@ func line(users bool, ops []op) string {
 	for i, o := range ops {
 		t[i] = o.token(users)
 	}
-	k := "routes"
-	if users {
-		k = "users"
-	}
-	return "c18 " + k + " " + strings.Join(t, " ")
+	return "c18 " + kindName(users) + " " + strings.Join(t, " ")
 }
+
+var partClasses = "-01hma"
 
 func parseLine(l string) (users bool, ops []op, ok bool) {
 	f := strings.Fields(l)
@@ -84,6 +93,9 @@ func parseLine(l string) (users bool, ops []op, ok bool) {
 	}
 	users = f[1] == "users"
 	for _, t := range f[2:] {
+		if t == "@" { // what follows are observations handed to the driver, not input
+			break
+		}
 		p := strings.Split(t, ",")
 		u := func(i int) string { return string(Unhx(p[i])) }
 		switch {
@@ -95,7 +107,9 @@ func parseLine(l string) (users bool, ops []op, ok bool) {
 			ops = append(ops, op{kind: p[0][0], key: u(1)})
 		case p[0] == "x" && len(p) == 2:
 			ops = append(ops, op{kind: 'x', disk: p[1]})
-		case len(p) == 1 && len(p[0]) == 1 && strings.Contains("afr", p[0]):
+		case p[0] == "k" && len(p) == 3 && len(p[2]) == 1 && strings.Contains(partClasses, p[2]):
+			ops = append(ops, op{kind: 'k', hook: p[1], part: p[2]})
+		case len(p) == 1 && len(p[0]) == 1 && strings.Contains("afreE", p[0]):
 			ops = append(ops, op{kind: p[0][0]})
 		default:
 			return false, nil, false
@@ -107,8 +121,11 @@ func parseLine(l string) (users bool, ops []op, ok bool) {
 // ---------------------------------------------------------------- the real tables behind one interface
 type flushRec struct {
 	called               bool
+	fail                 bool // the provider refuses (returns an error without writing)
 	full, saves, removes string
 }
+
+var errProviderDown = errors.New("verif: provider refuses to flush")
 
 type userSpy struct {
 	inner auth.UserProvider
@@ -140,7 +157,10 @@ func userKeys(us []*auth.User) string {
 }
 func (p userSpy) LoadAll() ([]*auth.User, error) { return p.inner.LoadAll() }
 func (p userSpy) Flush(full, saves, removes []*auth.User) error {
-	*p.rec = flushRec{true, fmtUsers(full), userKeys(saves), userKeys(removes)}
+	p.rec.called, p.rec.full, p.rec.saves, p.rec.removes = true, fmtUsers(full), userKeys(saves), userKeys(removes)
+	if p.rec.fail {
+		return errProviderDown
+	}
 	return p.inner.Flush(full, saves, removes)
 }
 
@@ -174,41 +194,93 @@ func routeKeys(rs []*route.Route) string {
 }
 func (p routeSpy) LoadAll() ([]*route.Route, error) { return p.inner.LoadAll() }
 func (p routeSpy) Flush(full, saves, removes []*route.Route) error {
-	*p.rec = flushRec{true, fmtRoutes(full), routeKeys(saves), routeKeys(removes)}
+	p.rec.called, p.rec.full, p.rec.saves, p.rec.removes = true, fmtRoutes(full), routeKeys(saves), routeKeys(removes)
+	if p.rec.fail {
+		return errProviderDown
+	}
 	return p.inner.Flush(full, saves, removes)
 }
 
+// one server: the table kind, its file, and what is needed to bring a child process into the
+// same state (the file as it was at the last start, and the operations since)
 type table struct {
-	users bool
-	file  string
-	rec   flushRec
+	users   bool
+	file    string
+	rec     flushRec
+	snap    []byte
+	hadSnap bool
+	life    []op
+	raws    []rawCrash // byte-level record of every crash of this history
+	ann     []string   // outcome of every crash op, for the specification ("o" old, "n" new, "x" neither)
+}
+
+func (t *table) configure(file string) string {
+	cfg := map[string]interface{}{"file": file}
+	var err error
+	if t.users {
+		err = auth.JSON.Configure(cfg)
+	} else {
+		err = route.JSON.Configure(cfg)
+	}
+	if err != nil {
+		return "cfgerr"
+	}
+	return "ok"
 }
 
 // restart: a server start — configure the JSON provider with the file and Reset the table from it
 func (t *table) restart() (res string) {
+	t.snap, t.hadSnap = readFile(t.file)
+	t.life = nil
 	defer func() {
 		if x := recover(); x != nil {
+			if _, env := x.(envErr); env {
+				panic(x)
+			}
 			res = "panic"
 		}
 	}()
-	cfg := map[string]interface{}{"file": t.file}
+	if t.configure(t.file) != "ok" {
+		return "cfgerr"
+	}
 	if t.users {
-		if err := auth.JSON.Configure(cfg); err != nil {
-			return "cfgerr"
-		}
 		auth.Reset(userSpy{auth.JSON, &t.rec})
 	} else {
-		if err := route.JSON.Configure(cfg); err != nil {
-			return "cfgerr"
-		}
 		route.Reset(routeSpy{route.JSON, &t.rec})
 	}
 	return "ok"
 }
 
+func (t *table) flush() (res string) {
+	t.rec.called = false
+	var err error
+	if t.users {
+		err = auth.Flush()
+	} else {
+		err = route.Flush()
+	}
+	switch {
+	case err != nil && t.rec.fail && err != errProviderDown:
+		return "err-other"
+	case err != nil:
+		return "err"
+	case !t.rec.called:
+		return "skip"
+	case t.rec.fail:
+		return "ok-though-the-provider-failed"
+	}
+	return fmt.Sprintf("W:%s;S:%s;R:%s", t.rec.full, t.rec.saves, t.rec.removes)
+}
+
 func (t *table) apply(o op) (res string) {
+	if o.kind != 'r' && o.kind != 'k' {
+		t.life = append(t.life, o)
+	}
 	defer func() {
 		if x := recover(); x != nil {
+			if _, env := x.(envErr); env {
+				panic(x)
+			}
 			res = "panic"
 		}
 	}()
@@ -246,36 +318,41 @@ func (t *table) apply(o op) (res string) {
 		}
 		return fmtRoutes(route.All())
 	case 'f':
-		t.rec = flushRec{}
-		var err error
-		if t.users {
-			err = auth.Flush()
-		} else {
-			err = route.Flush()
+		return t.flush()
+	case 'e':
+		// the provider is down: Flush must report it and keep the pending changes for the next Flush
+		t.rec.fail = true
+		defer func() { t.rec.fail = false }()
+		return t.flush()
+	case 'E':
+		// the file system refuses: the table file lives in a directory that does not exist
+		// (EncodeJSONFile fails at its first step); afterwards the configuration is put back
+		before, had := readFile(t.file)
+		if t.configure(filepath.Join(t.file+".nodir", "table.json")) != "ok" {
+			return "cfgerr"
 		}
-		if err != nil {
-			return "err"
+		r := t.flush()
+		t.configure(t.file)
+		if after, has := readFile(t.file); has != had || !bytes.Equal(before, after) {
+			return r + "+file-changed"
 		}
-		if !t.rec.called {
-			return "skip"
-		}
-		return fmt.Sprintf("W:%s;S:%s;R:%s", t.rec.full, t.rec.saves, t.rec.removes)
+		return r
 	case 'r':
 		return t.restart()
 	case 'x':
 		switch o.disk {
 		case "missing":
-			os.Remove(t.file)
+			removeFile(t.file)
 		case "emptylist":
-			ioutil.WriteFile(t.file, []byte("[]"), 0644)
+			writeFile(t.file, []byte("[]"))
 		case "corrupt-empty":
-			ioutil.WriteFile(t.file, nil, 0644)
+			writeFile(t.file, nil)
 		default:
 			if strings.HasPrefix(o.disk, "T:") {
-				ioutil.WriteFile(t.file, handWritten(t.users, o.disk[2:]), 0644)
+				writeFile(t.file, handWritten(t.users, o.disk[2:]))
 				return "ok"
 			}
-			ioutil.WriteFile(t.file, []byte("[\n\t{\n\t\t\"name\": \"adm"), 0644)
+			writeFile(t.file, []byte("[\n\t{\n\t\t\"name\": \"adm"))
 		}
 		return "ok"
 	}
@@ -333,72 +410,114 @@ func genHandWritten(c *Ctx, users bool) (string, []string) {
 	return "T:" + strings.Join(es, "+"), keys
 }
 
-// ---------------------------------------------------------------- crash child
-type childJob struct {
-	Users   bool   `json:"users"`
-	File    string `json:"file"`
-	Line    string `json:"line"`
-	Hook    string `json:"hook"`
-	Partial int    `json:"partial"` // -1: none
-	Raw     string `json:"raw"`     // replay of a recorded crash line: hex of the JSON text to write with utils.EncodeJSONFile
+// ---------------------------------------------------------------- a flush that dies
+type rawCrash struct {
+	hook     string
+	partial  int // -1: none
+	old, new []byte
+	hadOld   bool
+	outcome  string
+	derived  bool // recorded from a dying flush inside a history (which is the replay of any violation)
 }
 
-func childMain(job string) {
-	var j childJob
-	if err := json.Unmarshal([]byte(job), &j); err != nil {
-		os.Exit(4)
+func (r rawCrash) line() string {
+	return strings.Join([]string{"c18", "crash", r.hook, partStr(r.partial), oldStr(r.hadOld, r.old), Hx(r.new)}, " ")
+}
+
+func partBytes(class string, n int) int {
+	switch class {
+	case "0":
+		return 0
+	case "1":
+		return 1
+	case "h":
+		return n / 2
+	case "m":
+		return n - 1
+	case "a":
+		return n
 	}
-	xlog.ReplaceGlobal(xlog.New(xlog.NewNopCore()))
-	t := &table{users: j.Users, file: j.File}
-	if j.Raw == "" {
-		_, ops, ok := parseLine(j.Line)
-		if !ok {
-			os.Exit(4)
-		}
-		if t.restart() != "ok" {
-			os.Exit(5)
-		}
-		for _, o := range ops {
-			t.apply(o)
-		}
-	}
-	utils.VerifIOHook = func(point string, f *os.File, pending []byte) {
-		if point != j.Hook {
-			return
-		}
-		if j.Partial >= 0 && pending != nil && f != nil {
-			n := j.Partial
-			if n > len(pending) {
-				n = len(pending)
-			}
-			f.Write(pending[:n]) // the write in progress got n bytes out
-		}
-		syscall.Kill(os.Getpid(), syscall.SIGKILL)
-		select {}
-	}
-	if j.Raw != "" {
-		// Marshal + Indent of a RawMessage reproduces the recorded text
-		utils.EncodeJSONFile(j.File, json.RawMessage(Unhx(j.Raw)))
+	return -1
+}
+
+// crash: Flush is called and the process dies at the crash point; then the server is started again.
+// The dying process is a child that starts from the file as it was at this server's start,
+// repeats this server's operations on a private copy, and then flushes to the real file.
+func (t *table) crash(o op) string {
+	old, hadOld := readFile(t.file)
+	before := snapshotSiblings(t.file)
+	st := runChild(childJob{Kind: "crash", Users: t.users, File: t.file, Snap: Hx(t.snap), HadSnap: t.hadSnap,
+		Line: line(t.users, t.life), Hook: o.hook, Part: o.part}, 120*time.Second, func() { restoreSiblings(t.file, before) })
+	// what the flush would have written: the same flush, completed, to a file of its own
+	exp := t.file + ".expected"
+	removeAll(exp)
+	var res string
+	if t.configure(exp) != "ok" {
+		res = "cfgerr"
 	} else {
-		t.apply(op{kind: 'f'})
+		res = t.flush()
 	}
-	os.Exit(0) // the crash point was never reached
+	t.configure(t.file)
+	new, _ := readFile(exp)
+	removeAll(exp)
+	outcome := ""
+	switch {
+	case st == "hung":
+		outcome = "hung"
+	case res == "skip" && st == "S":
+		// nothing was pending: Flush returned without touching the file
+		if got, has := readFile(t.file); has != hadOld || !bytes.Equal(got, old) {
+			outcome = "other:" + Hx(got)
+		} else {
+			outcome = "skip"
+		}
+	case st == "K" && strings.HasPrefix(res, "W:"):
+		n := partBytes(o.part, len(new))
+		if o.hook != "before-write" {
+			n = -1
+		}
+		rc := rawCrash{hook: o.hook, partial: n, old: old, new: new, hadOld: hadOld, derived: true}
+		rc.outcome = crashOutcome(t.file, hadOld, old, new)
+		t.raws = append(t.raws, rc)
+		switch {
+		case rc.outcome == "missing" && !hadOld:
+			outcome = "old"
+		case hadOld && bytes.Equal(old, new) && rc.outcome == "old":
+			outcome = "same"
+		default:
+			outcome = rc.outcome
+		}
+	case st == "N":
+		outcome = "no-such-hook"
+	default:
+		// the child and this process disagree on what the flush does (or it failed): reported as it is
+		outcome = "child-" + st + "/flush-" + strings.SplitN(res, ":", 2)[0]
+	}
+	switch {
+	case outcome == "old" || outcome == "skip":
+		t.ann = append(t.ann, "o")
+	case outcome == "new" || outcome == "same":
+		t.ann = append(t.ann, "n")
+	default:
+		t.ann = append(t.ann, "x")
+	}
+	return "K:" + outcome + ";" + t.restart()
 }
 
-func runChild(j childJob) (killed bool, err error) {
-	b, _ := json.Marshal(j)
-	cmd := exec.Command(os.Args[0])
-	cmd.Env = append(os.Environ(), "VERIF_C18_CHILD="+string(b))
-	e := cmd.Run()
-	if e == nil {
-		return false, nil
-	}
-	if ee, ok := e.(*exec.ExitError); ok {
-		if ws, ok := ee.Sys().(syscall.WaitStatus); ok && ws.Signaled() && ws.Signal() == syscall.SIGKILL {
-			return true, nil
+// one history on the real tables, from a first start without a file
+func runHistory(t *table, ops []op) []string {
+	impl := make([]string, len(ops))
+	removeAll(t.file)
+	t.restart()
+	for j, o := range ops {
+		if o.kind == 'k' {
+			impl[j] = t.crash(o)
+		} else {
+			impl[j] = t.apply(o)
 		}
 	}
-	return false, e
+	removeAll(t.file)
+	return impl
 }
 
 // ---------------------------------------------------------------- generators
@@ -407,6 +526,7 @@ var passwords = []string{"", "pw", "secret", "0123456789abcdef0123456789abcdef",
 var rights = []string{"", "", "*", "/a/+", "/a;/b", "/live/*", "/cam/+/hd"}
 var routePatterns = []string{"/a", "/a/", "/A/", "/a/b", "/a/b/", "/", "a", "a/", " /a/ ", "/a//b", "/a/./b/", "/a/../b", "/a /.", "/x/. /.", "/b /a/.. /.", "", "/c/d/"}
 var routeURLs = []string{"rtsp://h/x", "rtsp://h/x/", "rtsp://h", "rtsp://h:554/live/", "http://u:p@h/q?x=1&y=<2>", "", "rtsp://h/%zz", ":bad", "rtsp://h/\x7f"}
+var hooks = []string{"opened", "before-write", "written", "synced", "renamed"}
 
 func genOps(c *Ctx, users bool, n int, withReload bool) []op {
 	r := c.Rng
@@ -461,6 +581,13 @@ func genOps(c *Ctx, users bool, n int, withReload bool) []op {
 		if withReload {
 			switch {
 			case r.Chance(22):
+				if r.Chance(25) {
+					// a flush that fails first (provider down / file system refuses), then one that works
+					ops = append(ops, op{kind: "eE"[r.Intn(2)]})
+					if r.Chance(30) {
+						ops = append(ops, op{kind: 'a'})
+					}
+				}
 				ops = append(ops, op{kind: 'f'})
 				if r.Chance(60) {
 					ops = append(ops, op{kind: 'r'}, op{kind: 'a'})
@@ -470,6 +597,8 @@ func genOps(c *Ctx, users bool, n int, withReload bool) []op {
 				}
 			case r.Chance(6):
 				ops = append(ops, op{kind: 'r'}, op{kind: 'a'}) // restart without flush: back to the persisted table
+			case r.Chance(4):
+				ops = append(ops, op{kind: "eE"[r.Intn(2)]}, op{kind: 'r'}, op{kind: 'a'}) // a failed flush persists nothing
 			}
 		}
 	}
@@ -496,26 +625,84 @@ func genOps(c *Ctx, users bool, n int, withReload bool) []op {
 	return ops
 }
 
+// a history with flushes that die: edits, flush, more edits, a flush killed at a crash point
+// (+ restart), then — with the dead process's temporary file possibly still lying around —
+// either the same edits again or edits that leave a much shorter table, flush, restart; sometimes a
+// second dying flush.
+func genCrashHistory(c *Ctx, users bool, i int) []op {
+	r := c.Rng
+	var ops []op
+	if r.Chance(85) {
+		ops = append(ops, genOps(c, users, 1+r.Intn(5), false)...)
+		ops = append(ops, op{kind: 'f'})
+	}
+	rounds := 1
+	if r.Chance(25) {
+		rounds = 2
+	}
+	for k := 0; k < rounds; k++ {
+		h2 := genOps(c, users, 1+r.Intn(4), false)
+		// make sure something is pending for the flush that dies (and that it differs from the file)
+		if r.Chance(85) {
+			if users {
+				h2 = append(h2, op{kind: 's', key: fmt.Sprintf("u%d-%d", i, k), pw: "pw", upd: true})
+			} else {
+				h2 = append(h2, op{kind: 's', key: fmt.Sprintf("/r%d-%d/", i, k), url: "rtsp://h/x"})
+			}
+		}
+		ops = append(ops, h2...)
+		ko := op{kind: 'k', hook: hooks[(i+k)%len(hooks)], part: "-"}
+		if ko.hook == "before-write" {
+			ko.part = string("01hma"[(i/len(hooks)+k)%5]) // a write in progress: every length class
+		}
+		ops = append(ops, ko, op{kind: 'a'})
+		again := h2
+		if (i+k)%2 == 1 {
+			again = nil
+			for _, o := range ops {
+				if o.kind == 's' {
+					again = append(again, op{kind: 'd', key: o.key})
+				}
+			}
+			if users {
+				again = append(again, op{kind: 'd', key: "admin"}, op{kind: 's', key: "z", pw: "p", upd: true})
+			} else {
+				again = append(again, op{kind: 's', key: "/z", url: "rtsp://h/z"})
+			}
+		}
+		ops = append(ops, again...)
+		if k+1 < rounds && r.Chance(50) {
+			continue // the next flush is again one that dies
+		}
+		ops = append(ops, op{kind: 'f'}, op{kind: 'r'}, op{kind: 'a'})
+	}
+	return ops
+}
+
 // ---------------------------------------------------------------- classification
 func classify(users bool, ops []op, i int) string {
-	k := "routes"
-	if users {
-		k = "users"
-	}
-	reloaded := false
+	k := kindName(users)
+	reloaded, crashed := false, false
 	for _, o := range ops[:i] {
 		if o.kind == 'r' {
 			reloaded = true
 		}
+		if o.kind == 'k' {
+			crashed = true
+		}
 	}
-	name := map[byte]string{'s': "save", 'd': "del", 'g': "get", 'a': "all", 'f': "flush", 'r': "restart", 'x': "setdisk"}[ops[i].kind]
-	if reloaded {
+	name := map[byte]string{'s': "save", 'd': "del", 'g': "get", 'a': "all", 'f': "flush", 'r': "restart", 'x': "setdisk",
+		'e': "flush-provider-down", 'E': "flush-fs-refuses", 'k': "crash"}[ops[i].kind]
+	switch {
+	case crashed:
+		return k + "-" + name + "-after-crash"
+	case reloaded:
 		return k + "-" + name + "-after-restart"
 	}
 	return k + "-" + name
 }
 
-func crashClass(outcome string, hadOld bool) string {
+func crashClass(outcome string) string {
 	switch {
 	case outcome == "missing":
 		return "flush-crash-file-missing"
@@ -542,12 +729,10 @@ func oldStr(had bool, old []byte) string {
 }
 
 // what a restart finds in the table file after the child died
-func crashOutcome(file string, killed, hadOld bool, old, new []byte) string {
-	got, rerr := ioutil.ReadFile(file)
+func crashOutcome(file string, hadOld bool, old, new []byte) string {
+	got, has := readFile(file)
 	switch {
-	case !killed:
-		return "no-such-hook"
-	case rerr != nil:
+	case !has:
 		return "missing"
 	case hadOld && bytes.Equal(got, old):
 		return "old"
@@ -557,320 +742,336 @@ func crashOutcome(file string, killed, hadOld bool, old, new []byte) string {
 	return "other:" + Hx(got)
 }
 
-// the table file and any temporary sibling a crash may have left behind
-func removeAll(file string) {
-	ms, _ := filepath.Glob(file + "*")
-	for _, m := range ms {
-		os.Remove(m)
-	}
+// ---------------------------------------------------------------- run
+type tcase struct {
+	users bool
+	ops   []op
+	crash bool
 }
 
-// ---------------------------------------------------------------- run
+type tresult struct {
+	impl []string
+	ann  []string
+	raws []rawCrash
+	env  string // not "" : the case could not be run for a reason outside the implementation
+}
+
+func runCase(dir string, i int, k tcase) (res tresult) {
+	defer func() {
+		if x := recover(); x != nil {
+			e, ok := x.(envErr)
+			if !ok {
+				panic(x)
+			}
+			res = tresult{env: e.what}
+		}
+	}()
+	t := &table{users: k.users, file: filepath.Join(dir, fmt.Sprintf("t-%d.json", i))}
+	impl := runHistory(t, k.ops)
+	return tresult{impl: impl, ann: t.ann, raws: t.raws}
+}
+
 func runC18(c *Ctx) {
 	xlog.ReplaceGlobal(xlog.New(xlog.NewNopCore()))
-	dir, err := ioutil.TempDir("", "verif-c18-")
-	if err != nil {
-		Fatal("tempdir: %v", err)
-	}
+	dir := scratchDir()
 	defer os.RemoveAll(dir)
 
-	type tcase struct {
-		users bool
-		ops   []op
-	}
 	var cases []tcase
-	var rawCrash [][]string
+	var raws []rawCrash
 	for _, l := range c.CorpusLines() {
 		if u, ops, ok := parseLine(l); ok {
-			cases = append(cases, tcase{u, ops})
+			cases = append(cases, tcase{users: u, ops: ops})
 		} else if f := strings.Fields(l); len(f) == 6 && f[0] == "c18" && f[1] == "crash" {
-			rawCrash = append(rawCrash, f)
+			rc := rawCrash{hook: f[2], partial: -1, new: Unhx(f[5])}
+			if n, err := strconv.Atoi(f[3]); err == nil {
+				rc.partial = n
+			}
+			if f[4] != "none" {
+				rc.old, rc.hadOld = Unhx(f[4]), true
+			}
+			raws = append(raws, rc)
 		}
 	}
 	if c.Replay == "" {
 		n := c.Budget(2500, 40000)
 		for i := 0; i < n; i++ {
 			users := i%2 == 0
-			cases = append(cases, tcase{users, genOps(c, users, 1+c.Rng.Intn(9), true)})
+			cases = append(cases, tcase{users: users, ops: genOps(c, users, 1+c.Rng.Intn(9), true)})
+		}
+		ncr := c.Budget(130, 1500)
+		for i := 0; i < ncr; i++ {
+			users := i%2 == 0
+			cases = append(cases, tcase{users: users, ops: genCrashHistory(c, users, i)})
 		}
 	}
-	lines := make([]string, len(cases))
-	for i, k := range cases {
-		lines[i] = line(k.users, k.ops)
+	for i := range cases {
+		for _, o := range cases[i].ops {
+			if o.kind == 'k' {
+				cases[i].crash = true
+			}
+		}
 	}
 
-	// ---- crash cases: (setup history, flushed) then (second history, flush killed at a crash point)
-	type ccase struct {
-		users    bool
-		h1, h2   []op
-		hook     string
-		partial  int
-		old, new []byte
-		hadOld   bool
-		outcome  string
-		line     string
-		raw      bool
-	}
-	var crashes []*ccase
-	hooks := []string{"opened", "before-write", "written", "synced", "renamed"}
-	ncr := c.Budget(160, 1500)
-	if c.Replay != "" {
-		ncr = 0
-	}
-	for i := 0; i < ncr; i++ {
-		users := i%2 == 0
-		cc := &ccase{users: users, partial: -1}
-		if c.Rng.Chance(85) {
-			cc.h1 = genOps(c, users, 1+c.Rng.Intn(5), false)
-		}
-		cc.h2 = genOps(c, users, 1+c.Rng.Intn(4), false)
-		// make sure something is pending for the second flush
-		if users {
-			cc.h2 = append(cc.h2, op{kind: 's', key: fmt.Sprintf("u%d", i), pw: "pw", upd: true})
-		} else {
-			cc.h2 = append(cc.h2, op{kind: 's', key: fmt.Sprintf("/r%d/", i), url: "rtsp://h/x"})
-		}
-		cc.hook = hooks[i%len(hooks)]
-		crashes = append(crashes, cc)
-	}
-	for _, f := range rawCrash {
-		cc := &ccase{raw: true, hook: f[2], partial: -1, new: Unhx(f[5])}
-		if n, err := strconv.Atoi(f[3]); err == nil {
-			cc.partial = n
-		}
-		if f[4] != "none" {
-			cc.old, cc.hadOld = Unhx(f[4]), true
-		}
-		crashes = append(crashes, cc)
-	}
-	for i, cc := range crashes {
-		file := filepath.Join(dir, fmt.Sprintf("crash-%d.json", i))
-		if cc.raw {
-			if cc.hadOld {
-				ioutil.WriteFile(file, cc.old, 0644)
-			}
-			killed, err := runChild(childJob{File: file, Hook: cc.hook, Partial: cc.partial, Raw: Hx(cc.new)})
-			if err != nil {
-				Fatal("crash child: %v", err)
-			}
-			cc.outcome = crashOutcome(file, killed, cc.hadOld, cc.old, cc.new)
-			cc.line = strings.Join([]string{"c18", "crash", cc.hook, partStr(cc.partial), oldStr(cc.hadOld, cc.old), Hx(cc.new)}, " ")
-			removeAll(file)
+	// ---- the implementation first: every history on the real tables (the crash outcomes the
+	// specification is told about are observations)
+	results := make([]tresult, len(cases))
+	poisoned := map[bool]string{} // table kind → the case that never returned
+	envSkips := 0
+	for i, k := range cases {
+		if why, bad := poisoned[k.users]; bad {
+			results[i] = tresult{env: "not run: the " + kindName(k.users) + " table is blocked by " + why}
 			continue
 		}
-		t := &table{users: cc.users, file: file}
-		t.restart()
-		for _, o := range cc.h1 {
-			t.apply(o)
-		}
-		if len(cc.h1) > 0 {
-			t.apply(op{kind: 'f'})
-		}
-		cc.old, err = ioutil.ReadFile(file)
-		cc.hadOld = err == nil
-		// the new content: the same second history, flushed without a crash, on a copy
-		file2 := file + ".expected"
-		if cc.hadOld {
-			ioutil.WriteFile(file2, cc.old, 0644)
-		}
-		t2 := &table{users: cc.users, file: file2}
-		t2.restart()
-		for _, o := range cc.h2 {
-			t2.apply(o)
-		}
-		t2.apply(op{kind: 'f'})
-		cc.new, _ = ioutil.ReadFile(file2)
-		os.Remove(file2)
-		if cc.hook == "before-write" {
-			// a write in progress: every length class
-			switch (i / len(hooks)) % 5 {
-			case 0:
-				cc.partial = 0
-			case 1:
-				cc.partial = 1
-			case 2:
-				cc.partial = len(cc.new) / 2
-			case 3:
-				cc.partial = len(cc.new) - 1
-			case 4:
-				cc.partial = c.Rng.Intn(len(cc.new) + 1)
+		done := make(chan tresult, 1)
+		go func(i int, k tcase) { done <- runCase(dir, i, k) }(i, k)
+		select {
+		case results[i] = <-done:
+		case <-time.After(90 * time.Second):
+			// no answer: slow machine or a call that never returns?  The history is run again, alone, in a
+			// process of its own with a long budget; whichever answers first decides.
+			l := line(k.users, k.ops)
+			confirm := make(chan string, 1)
+			go func() {
+				confirm <- runChild(childJob{Kind: "hist", Users: k.users, File: filepath.Join(dir, fmt.Sprintf("alone-%d", i), "t.json"), Line: l}, 600*time.Second, nil)
+			}()
+			st := ""
+			select {
+			case results[i] = <-done:
+			case st = <-confirm:
+				if st != "hung" {
+					// the history does return when run alone: keep waiting for this process's run
+					select {
+					case results[i] = <-done:
+					case <-time.After(600 * time.Second):
+						st = "hung"
+					}
+				}
 			}
-		}
-		killed, err := runChild(childJob{Users: cc.users, File: file, Line: line(cc.users, cc.h2), Hook: cc.hook, Partial: cc.partial})
-		if err != nil {
-			Fatal("crash child: %v", err)
-		}
-		cc.outcome = crashOutcome(file, killed, cc.hadOld, cc.old, cc.new)
-		// a restart after the crash must come up (no panic) with the old or the new table
-		if killed {
-			t3 := &table{users: cc.users, file: file}
-			if r := t3.restart(); r != "ok" {
-				c.Count("restart-after-crash-" + r)
+			if st == "hung" {
+				c.Find(Finding{Kind: "oracle", Class: kindName(k.users) + "-history-never-returns", Case: l, Impl: "no answer", Spec: "every operation returns",
+					Detail: "the history did not return within 90 s in this process nor within 600 s alone in a process of its own"})
+				poisoned[k.users] = l
+				results[i] = tresult{env: "never returned"}
 			} else {
-				c.Count("restart-after-crash-ok")
-			}
-			if cc.users && cc.hadOld && cc.outcome == "missing" {
-				c.Count("restart-fell-back-to-default-admin")
-			}
-			// the server comes back, the same edits are made again and flushed — with the dead
-			// process's temporary file possibly still lying around: the file must now be the new table
-			if (cc.hadOld && cc.outcome == "old") || (!cc.hadOld && cc.outcome == "missing") {
-				if _, err := os.Stat(file + ".tmp"); err == nil {
-					c.Count("stale-temp-present")
-				}
-				// either the same edits again, or edits that leave a much shorter table (the stale
-				// temporary file is then longer than what is written now)
-				again := cc.h2
-				if i%2 == 1 {
-					again = nil
-					for _, o := range append(append([]op{}, cc.h1...), cc.h2...) {
-						if o.kind == 's' {
-							again = append(again, op{kind: 'd', key: o.key})
-						}
-					}
-					if cc.users {
-						again = append(again, op{kind: 'd', key: "admin"}, op{kind: 's', key: "z", pw: "p", upd: true})
-					} else {
-						again = append(again, op{kind: 's', key: "/z", url: "rtsp://h/z"})
-					}
-				}
-				// expected: the same edits on a clean copy of the surviving file
-				file4 := file + ".clean"
-				if cc.hadOld {
-					ioutil.WriteFile(file4, cc.old, 0644)
-				}
-				t4 := &table{users: cc.users, file: file4}
-				t4.restart()
-				for _, o := range again {
-					t4.apply(o)
-				}
-				t4.apply(op{kind: 'f'})
-				want, _ := ioutil.ReadFile(file4)
-				removeAll(file4)
-				t3.restart()
-				for _, o := range again {
-					t3.apply(o)
-				}
-				t3.apply(op{kind: 'f'})
-				got, _ := ioutil.ReadFile(file)
-				if bytes.Equal(got, want) {
-					c.Count("reflush-after-crash-ok")
-					if len(want) < len(cc.new) {
-						c.Count("reflush-shorter-than-stale-temp")
-					}
-				} else {
-					c.Find(Finding{Kind: "oracle", Class: "flush-after-crash-wrong", Case: line(cc.users, again), Impl: Hx(got), Spec: Hx(want),
-						Detail: fmt.Sprintf("after a crash at %q (partial=%d) the same history was replayed and flushed", cc.hook, cc.partial)})
-				}
+				c.Count("slow-history-waited-for")
 			}
 		}
-		cc.line = fmt.Sprintf("c18 crash %s %s %s %s", cc.hook, partStr(cc.partial), oldStr(cc.hadOld, cc.old), Hx(cc.new))
-		removeAll(file)
+		if results[i].env != "" {
+			envSkips++
+			c.Count("case-not-run")
+			if envSkips <= 5 {
+				c.Note(fmt.Sprintf("case %d not evaluated: %s", i, results[i].env))
+			}
+		}
 	}
-	for _, cc := range crashes {
-		lines = append(lines, cc.line)
+	for _, rc := range raws {
+		file := filepath.Join(dir, "raw.json")
+		func() {
+			defer func() {
+				if x := recover(); x != nil {
+					if e, ok := x.(envErr); ok {
+						rc.outcome = "env:" + e.what
+						return
+					}
+					panic(x)
+				}
+			}()
+			removeAll(file)
+			if rc.hadOld {
+				writeFile(file, rc.old)
+			}
+			before := snapshotSiblings(file)
+			st := runChild(childJob{Kind: "raw", File: file, Hook: rc.hook, Partial: rc.partial, Raw: Hx(rc.new)}, 120*time.Second,
+				func() { restoreSiblings(file, before) })
+			switch st {
+			case "K":
+				rc.outcome = crashOutcome(file, rc.hadOld, rc.old, rc.new)
+			case "N":
+				rc.outcome = "no-such-hook"
+			default:
+				rc.outcome = "child-" + st
+			}
+			removeAll(file)
+		}()
+		results = append(results, tresult{raws: []rawCrash{rc}})
 	}
 
+	// ---- the model and the specification
+	var lines []string
+	type rawRef struct{ res, idx int }
+	var rawRefs []rawRef
+	for i, k := range cases {
+		l := line(k.users, k.ops)
+		if len(results[i].ann) > 0 {
+			l += " @ " + strings.Join(results[i].ann, " ")
+		}
+		lines = append(lines, l)
+	}
+	for i := range results {
+		for j, rc := range results[i].raws {
+			lines = append(lines, rc.line())
+			rawRefs = append(rawRefs, rawRef{i, j})
+		}
+	}
 	outs := c.Drive(lines)
-	c.Res.Rule = "table case = one history of Save/Del/Get/All/Flush/restart on the real users or routes table with the real JSON provider " +
-		"(distinct by the op line; non-trivial when it contains a flush that writes and a restart); crash case = (flushed history, second history, " +
-		"crash point inside EncodeJSONFile, bytes of a write in progress), run in a child process that SIGKILLs itself"
+	c.Res.Rule = "table case = one history of Save/Del/Get/All/Flush (working, provider down, file system refusing)/restart/" +
+		"Flush-that-dies-at-a-crash-point on the real users or routes table with the real JSON provider (distinct by the op line; " +
+		"non-trivial when it contains a flush that writes and a restart); every dying flush runs in a child process that SIGKILLs itself " +
+		"inside EncodeJSONFile and is also compared byte by byte with the file-system model (crash point, bytes of a write in progress)"
 
 	for i, k := range cases {
-		file := filepath.Join(dir, fmt.Sprintf("t-%d.json", i))
-		t := &table{users: k.users, file: file}
-		impl := make([]string, len(k.ops))
-		t.restart() // first start: no file
-		for j, o := range k.ops {
-			impl[j] = t.apply(o)
+		r := results[i]
+		if r.env != "" {
+			continue
 		}
-		os.Remove(file)
+		impl := r.impl
+		caseLine := line(k.users, k.ops)
 		kv := KV(outs[i])
 		model := strings.Split(kv["model"], "|")
 		spec := strings.Split(kv["spec"], "|")
 		if len(model) != len(k.ops) || len(spec) != len(k.ops) {
-			c.Find(Finding{Kind: "corr", Class: "driver-output", Case: lines[i], Impl: strings.Join(impl, "|"), Model: outs[i]})
+			c.Find(Finding{Kind: "corr", Class: "driver-output", Case: caseLine, Impl: strings.Join(impl, "|"), Model: outs[i]})
 			continue
 		}
 		wrote, restarted := false, false
-		kind := "routes"
-		if k.users {
-			kind = "users"
-		}
+		kind := kindName(k.users)
 		for j, o := range k.ops {
 			c.Count(kind + "-op-" + string(o.kind))
-			if o.kind == 'f' {
+			switch o.kind {
+			case 'f':
 				if strings.HasPrefix(impl[j], "W:") {
 					wrote = true
 					c.Count("flush-writes")
 				} else {
 					c.Count("flush-" + impl[j])
 				}
-			}
-			if o.kind == 'x' {
+			case 'e', 'E':
+				c.Count("failing-flush-" + impl[j])
+			case 'x':
 				if strings.HasPrefix(o.disk, "T:") {
 					c.Count("file-hand-written")
 				} else {
 					c.Count("file-" + o.disk)
 				}
-			}
-			if o.kind == 'r' {
+			case 'r':
 				restarted = true
 				c.Count("restart-" + impl[j])
+			case 's':
+				if impl[j] == "err" {
+					c.Count("save-rejected")
+				}
 			}
-			if o.kind == 's' && impl[j] == "err" {
-				c.Count("save-rejected")
+			if o.kind == 'k' {
+				restarted = true
+				out := strings.TrimPrefix(strings.SplitN(impl[j], ";", 2)[0], "K:")
+				short := out
+				if strings.HasPrefix(short, "other:") {
+					short = "other"
+				}
+				c.Count("crash-at-" + o.hook)
+				c.Count("crash-outcome-" + short)
+				if o.part != "-" {
+					c.Count("partial-write-" + o.part)
+				}
+				if out != "skip" {
+					wrote = true
+				}
+				// a dying flush whose old and new file are the same bytes cannot tell "old" from "new"
+				mj := model[j]
+				if out == "same" {
+					mj = strings.Replace(strings.Replace(mj, "K:old;", "K:same;", 1), "K:new;", "K:same;", 1)
+				}
+				if out == "no-such-hook" {
+					// the running code has no such crash point: the harness cannot place this crash
+					c.Find(Finding{Kind: "corr", Class: "crash-point-missing", Case: caseLine, Impl: impl[j], Model: model[j],
+						Detail: "crash point " + o.hook + " was never reached inside the provider's Flush: crashes there are no longer exercised"})
+				} else if impl[j] != mj {
+					cl := kind + "-op-k"
+					c.Find(Finding{Kind: "corr", Class: cl, Case: caseLine, Impl: impl[j], Model: model[j], Spec: spec[j],
+						Detail: fmt.Sprintf("op #%d %s", j, o.token(k.users))})
+				}
+				if spec[j] != "-" {
+					rs := strings.SplitN(impl[j], ";", 2)[1]
+					switch {
+					case out == "hung":
+						c.Find(Finding{Kind: "oracle", Class: "flush-never-returns", Case: caseLine, Impl: impl[j], Spec: spec[j],
+							Detail: fmt.Sprintf("op #%d %s: the flushing process neither reached the crash point nor returned within 120 s and, run again, within 600 s", j, o.token(k.users))})
+					case out == "old" || out == "new" || out == "same" || out == "skip":
+						if rs != "ok" {
+							c.Find(Finding{Kind: "oracle", Class: "restart-after-crash-" + rs, Case: caseLine, Impl: impl[j], Model: model[j], Spec: spec[j],
+								Detail: fmt.Sprintf("op #%d %s", j, o.token(k.users))})
+						}
+					case strings.HasPrefix(out, "other:") || out == "missing":
+						c.Find(Finding{Kind: "oracle", Class: crashClass(out), Case: caseLine, Impl: impl[j], Model: model[j], Spec: spec[j],
+							Detail: fmt.Sprintf("op #%d %s: the table file after the process died is neither the complete previous nor the complete new table", j, o.token(k.users))})
+					}
+					// anything else (crash point not in the source, child and parent disagree) is a broken correspondence, reported above
+				}
+				continue
 			}
 			if impl[j] != model[j] {
-				c.Find(Finding{Kind: "corr", Class: kind + "-op-" + string(o.kind), Case: lines[i], Impl: impl[j], Model: model[j], Spec: spec[j],
+				c.Find(Finding{Kind: "corr", Class: kind + "-op-" + string(o.kind), Case: caseLine, Impl: impl[j], Model: model[j], Spec: spec[j],
 					Detail: fmt.Sprintf("op #%d %s", j, o.token(k.users))})
 			}
 			if spec[j] != "-" && impl[j] != spec[j] {
-				c.Find(Finding{Kind: "oracle", Class: classify(k.users, k.ops, j), Case: lines[i], Impl: impl[j], Model: model[j], Spec: spec[j],
+				c.Find(Finding{Kind: "oracle", Class: classify(k.users, k.ops, j), Case: caseLine, Impl: impl[j], Model: model[j], Spec: spec[j],
 					Detail: fmt.Sprintf("op #%d %s", j, o.token(k.users))})
 			}
 		}
-		c.Eval(lines[i], wrote && restarted)
-		if i%(len(cases)/6+1) == 0 {
-			c.Sample(fmt.Sprintf("%s → impl=%s", lines[i], strings.Join(impl, "|")))
+		c.Eval(caseLine, wrote && restarted)
+		if i%(len(cases)/6+1) == 0 || (k.crash && i%40 == 0) {
+			c.Sample(fmt.Sprintf("%s → impl=%s", caseLine, strings.Join(impl, "|")))
 		}
 	}
-	for i, cc := range crashes {
-		out := outs[len(cases)+i]
-		c.Count("crash-at-" + cc.hook)
-		if cc.partial >= 0 {
+	for n, ref := range rawRefs {
+		rc := results[ref.res].raws[ref.idx]
+		out := outs[len(cases)+n]
+		if strings.HasPrefix(rc.outcome, "env:") {
+			c.Count("case-not-run")
+			c.Note("byte-level crash case not evaluated: " + rc.outcome)
+			continue
+		}
+		c.Count("bytes-crash-at-" + rc.hook)
+		if rc.partial >= 0 {
 			switch {
-			case cc.partial == 0:
-				c.Count("partial-write-0")
-			case cc.partial == len(cc.new):
-				c.Count("partial-write-all")
+			case rc.partial == 0:
+				c.Count("bytes-partial-write-0")
+			case rc.partial >= len(rc.new):
+				c.Count("bytes-partial-write-all")
 			default:
-				c.Count("partial-write-some")
+				c.Count("bytes-partial-write-some")
 			}
 		}
-		if !cc.hadOld {
-			c.Count("crash-on-first-flush")
+		if !rc.hadOld {
+			c.Count("bytes-crash-on-first-flush")
 		}
-		short := cc.outcome
+		short := rc.outcome
 		if strings.HasPrefix(short, "other:") {
 			short = "other"
 		}
-		c.Count("crash-outcome-" + short)
-		c.Eval(cc.line+fmt.Sprint(i), cc.outcome != "no-such-hook")
-		if i%(len(crashes)/4+1) == 0 {
-			c.Sample(fmt.Sprintf("crash at %s partial=%d |old|=%d |new|=%d → file is %s", cc.hook, cc.partial, len(cc.old), len(cc.new), short))
+		c.Count("bytes-crash-outcome-" + short)
+		l := rc.line()
+		c.Eval(l, true)
+		if n%(len(rawRefs)/3+1) == 0 {
+			c.Sample(fmt.Sprintf("crash at %s partial=%d |old|=%d |new|=%d → file is %s", rc.hook, rc.partial, len(rc.old), len(rc.new), short))
 		}
-		if out != cc.outcome {
-			c.Find(Finding{Kind: "corr", Class: "crash-" + cc.hook, Case: cc.line, Impl: cc.outcome, Model: out,
-				Detail: fmt.Sprintf("second history: %s", line(cc.users, cc.h2))})
+		if out != rc.outcome {
+			cl := "crash-" + rc.hook
+			if rc.outcome == "no-such-hook" {
+				cl = "crash-point-missing"
+			}
+			c.Find(Finding{Kind: "corr", Class: cl, Case: l, Impl: rc.outcome, Model: out})
 		}
-		if cc.outcome == "no-such-hook" {
+		if rc.outcome == "no-such-hook" && out == "no-such-hook" {
+			// neither the source nor the running code has this crash point: the harness cannot place the crash
+			c.Find(Finding{Kind: "corr", Class: "crash-point-missing", Case: l, Impl: rc.outcome, Model: out,
+				Detail: "crash point " + rc.hook + " is gone from utils.EncodeJSONFile: crashes there are no longer exercised"})
 			continue
 		}
-		okOutcome := cc.outcome == "new" || (cc.hadOld && cc.outcome == "old") || (!cc.hadOld && cc.outcome == "missing")
-		if !okOutcome {
-			c.Find(Finding{Kind: "oracle", Class: crashClass(cc.outcome, cc.hadOld), Case: cc.line, Impl: cc.outcome, Model: out,
-				Spec: "old|new", Detail: fmt.Sprintf("crash point %q partial=%d; second history: %s", cc.hook, cc.partial, line(cc.users, cc.h2))})
+		okOutcome := rc.outcome == "new" || (rc.hadOld && rc.outcome == "old") || (!rc.hadOld && rc.outcome == "missing")
+		if !okOutcome && !rc.derived && (strings.HasPrefix(rc.outcome, "other:") || rc.outcome == "missing" || rc.outcome == "old") {
+			c.Find(Finding{Kind: "oracle", Class: crashClass(rc.outcome), Case: l, Impl: rc.outcome, Model: out,
+				Spec: "old|new", Detail: fmt.Sprintf("crash point %q partial=%d", rc.hook, rc.partial)})
 		}
 	}
 }
